@@ -167,16 +167,18 @@ def make_equivariance(n, d, kind):
                 with contextlib.redirect_stdout(io.StringIO()):
                     p1, q1, r1 = fit_mvstud(x, max_iter=iters)
                     p2, q2, r2 = fit_mvstud(y, max_iter=iters)
-                good = np.allclose(p2, a * p1[perm] + b, rtol=1e-6, atol=1e-9) and np.allclose(q2, np.outer(a, a) * q1[np.ix_(perm, perm)], rtol=1e-5)
-                if not good:
-                    ok1 = (iters, p1.tolist(), p2.tolist())
+                good_loc = np.allclose(p2, a * p1[perm] + b, rtol=1e-6, atol=1e-9)
+                good_scale = np.allclose(q2, np.outer(a, a) * q1[np.ix_(perm, perm)], rtol=1e-5, atol=0)
+                if not (good_loc and good_scale):
+                    ok1 = (iters, p1.tolist(), p2.tolist(), q1.tolist(), q2.tolist(), good_loc)
                     break
             except Exception:
                 pass
         if ok1 is not None:
             return {"reproduced": True, "signature": f"fit_mvstud:not-equivariant:{kind}", "payload": {"a": a.tolist(), "b": b.tolist(), "iterations": ok1[0]},
                     "what": f"fit_mvstud(max_iter={ok1[0]}) on 200 t-distributed points vs their image under x -> {a.tolist()}*x + {b.tolist()} (perm {perm}): "
-                            f"location {ok1[1]} -> {ok1[2]} is not the image of the location"}
+                            + (f"location {ok1[1]} -> {ok1[2]} is not the image of the location" if not ok1[5] else
+                               f"scale matrix {ok1[3]} -> {ok1[4]} is not diag(a) Sigma diag(a) (permuted)")}
         ok = np.allclose(m2, a * m1[perm] + b, rtol=1e-5, atol=1e-8) and np.allclose(S2, np.outer(a, a) * S1[np.ix_(perm, perm)], rtol=1e-4) and \
             (math.isclose(n1, n2, rel_tol=1e-3) or (math.isinf(n1) and math.isinf(n2)))
         return {"reproduced": not ok, "signature": f"fit_mvstud:not-equivariant:{kind}", "payload": {"a": a.tolist(), "b": b.tolist(), "nu": [n1, n2]},
